@@ -386,7 +386,8 @@ Proof.
   - intros a b IHa IHb [Wa Wb] p. change (den (TSubtract a b)) with (Subtract (den a) (den b)).
     rewrite neg_subtract, pos_subtract, subtract_sign, subtract_pos.
     destruct (IHa Wa p) as [A1 A2]. destruct (IHb Wb p) as [B1 B2]. tauto.
-  - intros t off IH W p. exact (IH W (psub p off)).
+  - intros t off IH W p. change (den (TTranslate t off)) with (Translate (den t) off).
+    rewrite translate_spec, neg_translate, pos_translate. exact (IH W (psub p off)).
 Qed.
 
 (* inside and strictly outside are disjoint, for every well-formed expression (a corollary: no real is < 0 and > 0) *)
